@@ -25,6 +25,8 @@ TResult == /\ Ev.act = "Result" /\ l' = l + 1
               /\ Ev.rej \/ (ObsOK(Ev.g) /\ Matches(ObsG(Ev.g), e))
               \* dsDNA: the second strand of the result, completed once more by the code, gives back the first strand
               /\ (inp.fam = "dsdna" /\ ~Ev.rej) => (ObsOK(Ev.back) /\ ObsG(Ev.back) = Strand(inp))
+              \* ... and so does completing it in place on the same molecule (third strand = first strand, rest untouched)
+              /\ (inp.fam = "dsdna" /\ ~Ev.rej /\ inp.rounds = 2) => (ObsOK(Ev.g2) /\ ObsG(Ev.g2) = ExpRounds(inp, 2))
            /\ UNCHANGED vars
 TStep == /\ Ev.act # "Result" /\ l' = l + 1
          /\ Next /\ last' = Ev.act
